@@ -131,7 +131,7 @@ class PyExec:
     """One symbolic run of one function of an emitted module."""
 
     def __init__(self, ctx: Ctx, mod: ModuleInfo, ncols: int = 1, jax_traced: bool = False,
-                 param_vec=False, t_vec=False, missing_names=None, col_suffix=None):
+                 param_vec=False, t_vec=False, missing_names=None, col_suffix=None, scalar_suffix=""):
         self.ctx = ctx
         self.mod = mod
         self.N = ncols
@@ -140,6 +140,7 @@ class PyExec:
         self.param_vec = param_vec
         self.t_vec = t_vec
         self.missing_names = missing_names
+        self.scalar_suffix = scalar_suffix  # scalar-mode run standing for one column of a batch
         self.raises = []     # z3 Bool conditions under which an exception is raised
         self.col_suffix = col_suffix or (lambda j: "" if not self.batched else f"@{j}")
 
@@ -155,6 +156,8 @@ class PyExec:
             return Num([self.ctx.inp(base + self.col_suffix(j)) for j in range(self.N)], True)
         if self.batched:
             return Num([self.ctx.inp(base)], False)
+        if vec and self.scalar_suffix:
+            return Num([self.ctx.inp(base + self.scalar_suffix)], False)
         return Num([self.ctx.inp(base)], False)
 
     def make_input_array(self, argname):
